@@ -14,7 +14,7 @@ import (
 // YieldOnLoad additionally makes atomic reads scheduling points.
 var YieldOnLoad = false
 
-func w() { vsched.Yield() }
+func w() { vsched.YieldStall("atomic-write") }
 func r() {
 	if YieldOnLoad {
 		vsched.Yield()
